@@ -18,21 +18,26 @@ import (
 //
 // Exhaustive enumeration of a finite product on the real web.Handler
 // (web.New / Authn / Login) through net/http/httptest, judged by a reference
-// access predicate (env.go). Five parts:
+// access predicate (env.go). EVERY CASE IS SELF-CONTAINED: it builds its own
+// handler instance(s), logs in itself, and issues its whole request history;
+// nothing (handler, cookie value) is shared between cases, so a replay of one
+// case in a fresh process sees exactly what the worker saw. The property is
+// per request, so the oracle is applied to every request of a case.
 //
 //	routes  the mux.Handle* statements of the CURRENT cmd/shovel/main.go (parsed
 //	        at run time): the five configuration-changing / streaming pages are
 //	        registered and wrapped in Authn; no sensitive method is registered bare
 //	authn   2 switches × 2 password modes × remote addresses × cookie states ×
 //	        proxy-header variants × methods × every protected route, served by a
-//	        ServeMux that mirrors main.go (real Authn around recording stubs)
+//	        ServeMux that mirrors main.go (real Authn around recording stubs);
+//	        the SAME request is presented 2× (thorough 3×) to the same handler
 //	login   switches × password modes × remote addresses × methods × password
 //	        guesses × header variants on a fresh handler each; an issued session
-//	        is then presented to the issuer and to another handler instance
-//	seq     every sequence of length 1..2 (thorough 1..3) over five operations on
+//	        is then presented twice to the issuer and twice to another instance
+//	seq     every sequence of length 1..3 (thorough 1..4) over seven operations on
 //	        ONE handler instance, the reference tracking a browser cookie jar
 //	sweep   a session issued by this handler with the character at EVERY position
-//	        changed, and cut to EVERY proper prefix length
+//	        changed, and cut to EVERY proper prefix length, each presented 2×
 type Case struct {
 	Kind     string   `json:"kind"` // route | authn | login | seq
 	Disable  bool     `json:"disable_authn"`
@@ -45,6 +50,7 @@ type Case struct {
 	Route    string   `json:"route,omitempty"`
 	Guess    string   `json:"guess,omitempty"`
 	Seq      []string `json:"seq,omitempty"`
+	Repeat   int      `json:"repeat,omitempty"` // authn: how many times the same request is presented to the same handler
 }
 
 func (k Case) cfg() cfg { return cfg{k.Disable, k.LoopAuth, k.PW} }
@@ -58,12 +64,13 @@ func init() {
 		ID:        "C19",
 		Level:     "exploration",
 		Technique: "exhaustive enumeration of configuration × request tuples and short operation sequences on the real web.Handler via httptest, against a reference access predicate; route table parsed from main.go",
-		Rule: "routes: every mux.Handle/HandleFunc statement of cmd/shovel/main.go + the five required protected paths. " +
+		Rule: "Every case is self-contained (own handler instances, own logins, own request history) and the oracle judges every request of the case. " +
+			"routes: every mux.Handle/HandleFunc statement of cmd/shovel/main.go + the five required protected paths. " +
 			"authn: {disable_authn}×{enable_loopback_authn}×{configured,generated password}×remote address (10; thorough 25: v4/v6/v4-mapped loopback, private, public, unspecified, malformed, empty)×14 cookie states " +
-			"(none, 3 garbage, issued by this handler via loopback/remote login, issued by another handler instance ×2, one character changed ×3, truncated ×2, right value under another name)×3 proxy-header variants×methods (4; thorough 7)×every protected route. " +
-			"login: same configurations×addresses×5 methods×8 guesses (correct, wrong first/last byte, empty, missing, proper prefix, correct+suffix, other case)×3 header variants, each on a fresh handler; every issued session is replayed to the issuer and to a second instance. " +
-			"seq: all sequences of length 1..2 (thorough 1..3) over {login-ok-loopback, login-ok-remote, login-wrong, protected-with-jar-cookie, protected-without-cookie} × 8 configurations on one handler. " +
-			"sweep: every single-character change and every proper prefix of an issued session. " +
+			"(none, 3 garbage, issued by this handler via loopback/remote login, issued by another handler instance ×2, one character changed ×3, truncated ×2, right value under another name)×3 proxy-header variants×methods (4; thorough 7)×every protected route; the same request is presented 2× (thorough 3×) to the same handler. " +
+			"login: same configurations×addresses×5 methods×8 guesses (correct, wrong first/last byte, empty, missing, proper prefix, correct+suffix, other case)×3 header variants, each on a fresh handler; every issued session is presented 2× to the issuer and 2× to a second instance. " +
+			"seq: all sequences of length 1..3 (thorough 1..4) over {login-ok-loopback, login-ok-remote, login-wrong, login-ok-elsewhere (correct login to ANOTHER instance, cookie goes to the jar), protected-with-jar-cookie, protected-without-cookie, protected-with-garbage-cookie} × 8 configurations on one handler. " +
+			"sweep: every single-character change and every proper prefix of an issued session, presented 2×. " +
 			"Every case is one distinct tuple; a case is non-trivial when disable_authn is off (loopback/session logic decides) — for login cases additionally when the method is POST (the password decides).",
 		Assumptions: []string{
 			"requests are delivered with net/http semantics (ServeMux + httptest recorder); no sockets, TLS or reverse proxy in front",
@@ -71,7 +78,7 @@ func init() {
 			"the route table is read from the source text of cmd/shovel/main.go (the file the binary was built from, overlay-aware); registrations made elsewhere or through other identifiers than <x>.Handle/<x>.HandleFunc with a literal pattern are not seen",
 			"GET /login is judged only for status in {200,500} and absence of Set-Cookie (its template is not judged)",
 			"cookie attributes (Secure, MaxAge, SameSite) and session expiry are not judged",
-			"the generated password is read from the unexported Handler.password field by reflection",
+			"the generated password is read from the unexported Handler.password field by reflection (after a GET /login from loopback if the handler holds none yet); an empty or absent guess is never the password",
 		},
 		Budget:        map[string]time.Duration{"quick": 60 * time.Second, "thorough": 600 * time.Second},
 		MinNontrivial: 20000,
@@ -170,33 +177,63 @@ func mintFailure(c *fw.Ctx, k cfg, err error) {
 	c.Violation("C19", "mismatch", "login/correct-password-rejected", err.Error(), cas)
 }
 
-// judgeAuthn sends one request to a protected route of e and compares with the
-// reference. It returns the outcome class.
-func judgeAuthn(c *fw.Ctx, e, other *env, cas Case) string {
+// judgeAuthn is one self-contained authn case: a fresh handler (and a fresh
+// "other process"), its own logins, then the same request presented
+// cas.Repeat times to that handler, each presentation judged by the reference.
+// It returns the outcome class of the case.
+func judgeAuthn(c *fw.Ctx, rt *routeTable, cas Case) string {
 	a, ok := addrOf(cas.Remote)
 	if !ok {
 		c.HarnessError("remote address %q is not in the reference table", cas.Remote)
 		return "harness"
 	}
-	cu, err := cookieFor(cas.Cookie, e, other)
-	if err != nil {
-		mintFailure(c, e.k, err)
-		return "no-session"
+	if _, ok := rt.find(cas.Route); !ok {
+		c.HarnessError("route %q is not in the enumerated route set of %s", cas.Route, rt.File)
+		return "harness"
 	}
-	r, err := protectedReq(cas.Method, cas.Route, cas.Remote, cas.Hdr, cu.Header)
+	e, err := newEnv(cas.cfg(), rt)
 	if err != nil {
 		c.HarnessError("%v", err)
 		return "harness"
 	}
-	return judgeProtected(c, e, r, cas, a.Loopback, cu.Valid, cu.Kind, "authn/")
+	cu, err := cookieFor(cas.Cookie, e, func() (*env, error) { return newEnv(cas.cfg(), rt) })
+	if err != nil {
+		mintFailure(c, e.k, err)
+		return "no-session"
+	}
+	n := cas.Repeat
+	if n < 1 {
+		n = 1
+	}
+	out := ""
+	for i := 1; i <= n; i++ {
+		r, err := protectedReq(cas.Method, cas.Route, cas.Remote, cas.Hdr, cu.Header)
+		if err != nil {
+			c.HarnessError("%v", err)
+			return "harness"
+		}
+		suffix, what := "", ""
+		if i > 1 {
+			// the first presentation was judged correct: what fails now depends on the history
+			suffix, what = "/on-repeat", fmt.Sprintf("presentation #%d of the same request to the same handler: ", i)
+		}
+		var good bool
+		out, good = judgeProtected(c, e, r, cas, a.Loopback, cu.Valid, cu.Kind, "authn/", suffix, what)
+		if !good {
+			break
+		}
+	}
+	return out
 }
 
-func judgeProtected(c *fw.Ctx, e *env, r *http.Request, cas Case, loopback, valid bool, cookieKind, keyPrefix string) string {
+// judgeProtected serves one request to a protected route and compares with the
+// reference; ok=false when a violation was reported.
+func judgeProtected(c *fw.Ctx, e *env, r *http.Request, cas Case, loopback, valid bool, cookieKind, keyPrefix, keySuffix, what string) (out string, ok bool) {
 	allowed, why := allowedRef(e.k, loopback, valid)
 	rec, p := e.serve(r)
 	if p != nil {
-		c.Violation("C19", "panic", keyPrefix+"panic", fmt.Sprintf("%+v: panic: %v", cas, p), cas)
-		return "panic"
+		c.Violation("C19", "panic", keyPrefix+"panic", fmt.Sprintf("%+v: %spanic: %v", cas, what, p), cas)
+		return "panic", false
 	}
 	ranHere, ranOther := e.ran[cas.Route], 0
 	for path, n := range e.ran {
@@ -212,25 +249,25 @@ func judgeProtected(c *fw.Ctx, e *env, r *http.Request, cas Case, loopback, vali
 	obs := fmt.Sprintf("stub ran %d× (other routes %d×), status %d, Location %q", ranHere, ranOther, rec.Code, loc)
 	switch {
 	case !allowed && ranHere+ranOther > 0:
-		c.Violation("C19", "unauthenticated", keyPrefix+"served-not-allowed/"+lb+"/cookie-"+cookieKind,
-			fmt.Sprintf("%+v: reference denies (authn enabled, %s remote, cookie %s) but the protected handler was served: %s", cas, lb, cookieKind, obs), cas)
-		return "served:NOT-ALLOWED"
+		c.Violation("C19", "unauthenticated", keyPrefix+"served-not-allowed/"+lb+"/cookie-"+cookieKind+keySuffix,
+			fmt.Sprintf("%+v: %sreference denies (authn enabled, %s remote, cookie %s) but the protected handler was served: %s", cas, what, lb, cookieKind, obs), cas)
+		return "served:NOT-ALLOWED", false
 	case allowed && ranHere+ranOther == 0:
-		c.Violation("C19", "mismatch", keyPrefix+"denied-allowed/"+why,
-			fmt.Sprintf("%+v: reference allows (%s) but the protected handler did not run: %s", cas, why, obs), cas)
-		return "denied:ALLOWED"
+		c.Violation("C19", "mismatch", keyPrefix+"denied-allowed/"+why+keySuffix,
+			fmt.Sprintf("%+v: %sreference allows (%s) but the protected handler did not run: %s", cas, what, why, obs), cas)
+		return "denied:ALLOWED", false
 	case allowed && (ranHere != 1 || ranOther != 0 || rec.Code != 200):
-		c.Violation("C19", "mismatch", keyPrefix+"bad-served",
-			fmt.Sprintf("%+v: allowed (%s): expected the stub of %s exactly once and status 200: %s", cas, why, cas.Route, obs), cas)
-		return "served:odd"
+		c.Violation("C19", "mismatch", keyPrefix+"bad-served"+keySuffix,
+			fmt.Sprintf("%+v: %sallowed (%s): expected the stub of %s exactly once and status 200: %s", cas, what, why, cas.Route, obs), cas)
+		return "served:odd", false
 	case !allowed && (rec.Code != http.StatusSeeOther || loc != "/login"):
-		c.Violation("C19", "mismatch", keyPrefix+"bad-redirect",
-			fmt.Sprintf("%+v: denied: expected 303 to /login: %s", cas, obs), cas)
-		return "denied:odd"
+		c.Violation("C19", "mismatch", keyPrefix+"bad-redirect"+keySuffix,
+			fmt.Sprintf("%+v: %sdenied: expected 303 to /login: %s", cas, what, obs), cas)
+		return "denied:odd", false
 	case allowed:
-		return "served:" + why
+		return "served:" + why, true
 	}
-	return "redirect:cookie-" + cookieKind
+	return "redirect:cookie-" + cookieKind, true
 }
 
 func methods(thorough bool) []string {
@@ -240,13 +277,22 @@ func methods(thorough bool) []string {
 	return []string{"GET", "POST", "PUT", "HEAD"}
 }
 
+func repeats(thorough bool) int {
+	if thorough {
+		return 3
+	}
+	return 2
+}
+
 func partAuthn(c *fw.Ctx, rt *routeTable) {
 	ms := methods(c.Thorough())
 	as := tierAddrs(c.Thorough())
+	rep := repeats(c.Thorough())
 	c.Bound("authn_addresses", len(as))
 	c.Bound("authn_cookie_states", len(cookieStates))
 	c.Bound("authn_methods", ms)
 	c.Bound("authn_header_variants", hdrVariants)
+	c.Bound("authn_presentations_per_case", rep)
 	var routes []string
 	for _, r := range rt.Enum {
 		routes = append(routes, r.Path)
@@ -254,32 +300,23 @@ func partAuthn(c *fw.Ctx, rt *routeTable) {
 	c.Bound("authn_routes", routes)
 	for _, k := range allCfgs() {
 		for _, a := range as {
-			if !c.Mine() {
-				continue
-			}
-			if c.Expired() {
-				return
-			}
-			e, err := newEnv(k, rt)
-			if err != nil {
-				c.HarnessError("%v", err)
-				return
-			}
-			other, err := newEnv(k, rt)
-			if err != nil {
-				c.HarnessError("%v", err)
-				return
-			}
 			for _, cs := range cookieStates {
+				if !c.Mine() {
+					continue
+				}
+				if c.Expired() {
+					return
+				}
 				for _, hv := range hdrVariants {
 					for _, m := range ms {
 						for _, route := range routes {
 							cas := mk("authn", k)
-							cas.Remote, cas.Cookie, cas.Hdr, cas.Method, cas.Route = a.S, cs, hv, m, route
-							out := judgeAuthn(c, e, other, cas)
+							cas.Remote, cas.Cookie, cas.Hdr, cas.Method, cas.Route, cas.Repeat = a.S, cs, hv, m, route, rep
+							out := judgeAuthn(c, rt, cas)
 							c.Eval(!k.Disable)
 							c.Outcome(out)
-							c.Count("authn_requests", 1)
+							c.Count("authn_cases", 1)
+							c.Count("authn_requests", int64(rep))
 							if strings.HasPrefix(out, "served:session") && a.S == remotePublic && c.Shard%4 == 1 {
 								c.Sample(map[string]any{"case": cas, "outcome": out})
 							}
@@ -313,38 +350,37 @@ func partSweep(c *fw.Ctx, rt *routeTable) {
 		}
 	}
 	c.Bound("sweep_jobs", len(jobs))
+	// the token length is a constant of the session format; measure it once
+	probe, err := newEnv(cfg{PW: "configured"}, rt)
+	if err != nil {
+		c.HarnessError("%v", err)
+		return
+	}
+	tok := probe.mint("R")
+	if tok == nil || tok.Value == "" {
+		mintFailure(c, probe.k, errMint{"this", "R"})
+		return
+	}
+	n := len(tok.Value)
+	c.Bound("sweep_token_chars", n)
 	for _, j := range jobs {
-		if !c.Mine() {
-			continue
-		}
-		if c.Expired() {
-			return
-		}
-		e, err := newEnv(j.k, rt)
-		if err != nil {
-			c.HarnessError("%v", err)
-			return
-		}
-		e.mint("R")
-		e.mint("L")
-		tok := e.minted[j.base]
-		if tok == nil || tok.Value == "" {
-			mintFailure(c, j.k, errMint{"this", j.base})
-			continue
-		}
-		n := len(tok.Value)
-		c.Bound("sweep_token_chars", n)
 		for i := 0; i < n; i++ {
+			if !c.Mine() {
+				continue
+			}
+			if c.Expired() {
+				return
+			}
 			for _, op := range []string{"flip", "trunc"} {
 				if op == "trunc" && i == 0 {
 					continue // the empty value is the named state "empty"
 				}
 				cas := mk("authn", j.k)
-				cas.Remote, cas.Cookie, cas.Hdr, cas.Method, cas.Route = j.remote, fmt.Sprintf("%s:%s@%d", op, j.base, i), "none", "GET", route
-				out := judgeAuthn(c, e, e, cas)
+				cas.Remote, cas.Cookie, cas.Hdr, cas.Method, cas.Route, cas.Repeat = j.remote, fmt.Sprintf("%s:%s@%d", op, j.base, i), "none", "GET", route, 2
+				out := judgeAuthn(c, rt, cas)
 				c.Eval(true)
 				c.Outcome(out)
-				c.Count("sweep_requests", 1)
+				c.Count("sweep_cases", 1)
 			}
 		}
 	}
@@ -411,7 +447,8 @@ func judgeLogin(c *fw.Ctx, rt *routeTable, cas Case) string {
 		return "login-405"
 	}
 	// POST. Reference: the guess is right iff it IS the password (byte for byte, and actually supplied).
-	correct := cas.Guess != "missing" && g == e.pw
+	// An empty or absent guess is never right (a password is never empty).
+	correct := cas.Guess != "missing" && g != "" && g == e.pw
 	if !correct {
 		if len(setCookies) > 0 {
 			c.Violation("C19", "unauthenticated", "login/session-issued-for-wrong-password/"+cas.Guess,
@@ -432,40 +469,42 @@ func judgeLogin(c *fw.Ctx, rt *routeTable, cas Case) string {
 	if ck.Name != sessionCookieName {
 		c.Count("cookie_name_differs_from_library_default", 1)
 	}
-	// the issuer accepts it from a non-loopback address (whatever enable_loopback_authn says) …
+	// the issuer accepts it from a non-loopback address (whatever enable_loopback_authn says), every time …
 	route := rt.Enum[0].Path
-	fcas := cas
-	fcas.Route = route
-	rq, _ := protectedReq("GET", route, remotePublic, "none", ck.Name+"="+ck.Value)
-	rec2, p := e.serve(rq)
-	if p != nil {
-		c.Violation("C19", "panic", "login/panic", fmt.Sprintf("%+v: panic presenting the session: %v", cas, p), cas)
-		return "panic"
+	for i := 1; i <= 2; i++ {
+		rq, _ := protectedReq("GET", route, remotePublic, "none", ck.Name+"="+ck.Value)
+		rec2, p := e.serve(rq)
+		if p != nil {
+			c.Violation("C19", "panic", "login/panic", fmt.Sprintf("%+v: panic presenting the session: %v", cas, p), cas)
+			return "panic"
+		}
+		if e.ran[route] != 1 || rec2.Code != 200 {
+			c.Violation("C19", "mismatch", "login/cookie-not-accepted-by-issuer",
+				fmt.Sprintf("%+v: presentation #%d: the session just issued does not open %s from %s on the issuing handler: stub ran %d×, status %d", cas, i, route, remotePublic, e.ran[route], rec2.Code), cas)
+			return "login-ok:unusable"
+		}
 	}
-	if e.ran[route] != 1 || rec2.Code != 200 {
-		c.Violation("C19", "mismatch", "login/cookie-not-accepted-by-issuer",
-			fmt.Sprintf("%+v: the session just issued does not open %s from %s on the issuing handler: stub ran %d×, status %d", cas, route, remotePublic, e.ran[route], rec2.Code), cas)
-		return "login-ok:unusable"
-	}
-	// … and another process (same configuration, own key) does not, unless authn is off
+	// … and another process (same configuration, own key) does not, however often it is shown, unless authn is off
 	other, err := newEnv(k, rt)
 	if err != nil {
 		c.HarnessError("%v", err)
 		return "harness"
 	}
-	rq, _ = protectedReq("GET", route, remotePublic, "none", ck.Name+"="+ck.Value)
-	rec3, p := other.serve(rq)
-	if p != nil {
-		c.Violation("C19", "panic", "login/panic", fmt.Sprintf("%+v: panic presenting the session to another instance: %v", cas, p), cas)
-		return "panic"
-	}
-	if allowed, _ := allowedRef(k, false, false); !allowed && (other.ran[route] != 0 || rec3.Code != http.StatusSeeOther) {
-		c.Violation("C19", "unauthenticated", "login/cookie-accepted-by-other-instance",
-			fmt.Sprintf("%+v: a session issued by one handler instance opens %s on another instance: stub ran %d×, status %d", cas, route, other.ran[route], rec3.Code), cas)
-		return "login-ok:PORTABLE"
-	} else if allowed && other.ran[route] != 1 {
-		c.Violation("C19", "mismatch", "authn/denied-allowed/disabled", fmt.Sprintf("%+v: authn disabled but another instance denies: status %d", cas, rec3.Code), cas)
-		return "login-ok:odd"
+	for i := 1; i <= 2; i++ {
+		rq, _ := protectedReq("GET", route, remotePublic, "none", ck.Name+"="+ck.Value)
+		rec3, p := other.serve(rq)
+		if p != nil {
+			c.Violation("C19", "panic", "login/panic", fmt.Sprintf("%+v: panic presenting the session to another instance: %v", cas, p), cas)
+			return "panic"
+		}
+		if allowed, _ := allowedRef(k, false, false); !allowed && (other.ran[route] != 0 || rec3.Code != http.StatusSeeOther) {
+			c.Violation("C19", "unauthenticated", "login/cookie-accepted-by-other-instance",
+				fmt.Sprintf("%+v: presentation #%d: a session issued by one handler instance opens %s on another instance: stub ran %d×, status %d", cas, i, route, other.ran[route], rec3.Code), cas)
+			return "login-ok:PORTABLE"
+		} else if allowed && other.ran[route] != 1 {
+			c.Violation("C19", "mismatch", "authn/denied-allowed/disabled", fmt.Sprintf("%+v: authn disabled but another instance denies: status %d", cas, rec3.Code), cas)
+			return "login-ok:odd"
+		}
 	}
 	return "login-ok"
 }
@@ -503,11 +542,13 @@ func partLogin(c *fw.Ctx, rt *routeTable) {
 
 // ---- part 4: sequences on one handler ---------------------------------------
 
-var seqOps = []string{"login-ok-loopback", "login-ok-remote", "login-wrong", "protected-jar-cookie", "protected-no-cookie"}
+var seqOps = []string{"login-ok-loopback", "login-ok-remote", "login-wrong", "login-ok-elsewhere", "protected-jar-cookie", "protected-no-cookie", "protected-garbage-cookie"}
 
-// judgeSeq runs the operations on ONE handler. The reference keeps a browser
-// style jar: a Set-Cookie replaces the jar content; the jar holds a valid
-// session iff its content came from a correct-password login.
+// judgeSeq runs the operations on ONE handler (plus one "other process" for
+// login-ok-elsewhere). The reference keeps a browser style jar: a Set-Cookie
+// replaces the jar content; the jar holds a valid session iff its content came
+// from a correct-password login TO THIS handler. Every protected request of
+// the sequence is judged.
 func judgeSeq(c *fw.Ctx, rt *routeTable, cas Case) string {
 	k := cas.cfg()
 	e, err := newEnv(k, rt)
@@ -515,22 +556,36 @@ func judgeSeq(c *fw.Ctx, rt *routeTable, cas Case) string {
 		c.HarnessError("%v", err)
 		return "harness"
 	}
+	var other *env
 	route := rt.Enum[0].Path
-	jar, jarValid := "", false
+	jar, jarValid, jarKind := "", false, "none"
 	last := ""
 	for i, op := range cas.Seq {
 		step := fmt.Sprintf("step %d (%s) of %v", i+1, op, cas.Seq)
 		switch op {
-		case "login-ok-loopback", "login-ok-remote", "login-wrong":
-			remote, guess := remotePublic, "correct"
+		case "login-ok-loopback", "login-ok-remote", "login-wrong", "login-ok-elsewhere":
+			target, remote, guess := e, remotePublic, "correct"
 			if op == "login-ok-loopback" {
 				remote = remoteLoopback
 			}
 			if op == "login-wrong" {
 				guess = "wrong-last"
 			}
-			r, _, _ := e.loginReq("POST", remote, "none", guess)
-			rec, p := e.serve(r)
+			if op == "login-ok-elsewhere" {
+				if other == nil {
+					if other, err = newEnv(k, rt); err != nil {
+						c.HarnessError("%v", err)
+						return "harness"
+					}
+				}
+				target = other
+			}
+			r, _, err := target.loginReq("POST", remote, "none", guess)
+			if err != nil {
+				c.HarnessError("%v", err)
+				return "harness"
+			}
+			rec, p := target.serve(r)
 			if p != nil {
 				c.Violation("C19", "panic", "seq/panic", fmt.Sprintf("%+v: %s: panic: %v", cas, step, p), cas)
 				return "panic"
@@ -546,31 +601,35 @@ func judgeSeq(c *fw.Ctx, rt *routeTable, cas Case) string {
 					// not judged (cookie attributes are outside the property); recorded as an observation
 					c.Count("obs_remote_login_cookie_not_secure_after_loopback_login", 1)
 				}
-				jar, jarValid = ck.Name+"="+ck.Value, true
-				last = "login-ok"
+				jar = ck.Name + "=" + ck.Value
+				if target == e {
+					jarValid, jarKind, last = true, "valid", "login-ok"
+				} else {
+					jarValid, jarKind, last = false, "foreign", "login-elsewhere"
+				}
 			} else {
 				if nset > 0 {
 					c.Violation("C19", "unauthenticated", "seq/session-issued-for-wrong-password", fmt.Sprintf("%+v: %s: wrong password but %d Set-Cookie header(s), status %d", cas, step, nset, rec.Code), cas)
 					if ck != nil {
-						jar, jarValid = ck.Name+"="+ck.Value, false // a browser would store it
+						jar, jarValid, jarKind = ck.Name+"="+ck.Value, false, "invalid" // a browser would store it
 					}
 				} else if rec.Code != http.StatusUnauthorized {
 					c.Violation("C19", "mismatch", "seq/wrong-password-status", fmt.Sprintf("%+v: %s: status %d", cas, step, rec.Code), cas)
 				}
 				last = "login-401"
 			}
-		case "protected-jar-cookie", "protected-no-cookie":
+		case "protected-jar-cookie", "protected-no-cookie", "protected-garbage-cookie":
 			hdr, valid, kind := "", false, "none"
 			if op == "protected-jar-cookie" && jar != "" {
-				hdr, valid, kind = jar, jarValid, "invalid"
-				if valid {
-					kind = "valid"
-				}
+				hdr, valid, kind = jar, jarValid, jarKind
+			}
+			if op == "protected-garbage-cookie" {
+				hdr, kind = sessionCookieName+"=garbage", "invalid"
 			}
 			r, _ := protectedReq("GET", route, remotePublic, "none", hdr)
 			scas := cas
 			scas.Route = route
-			last = judgeProtected(c, e, r, scas, false, valid, kind, "seq/")
+			last, _ = judgeProtected(c, e, r, scas, false, valid, kind, "seq/", "", step+": ")
 		default:
 			c.HarnessError("unknown sequence operation %q", op)
 			return "harness"
@@ -580,9 +639,9 @@ func judgeSeq(c *fw.Ctx, rt *routeTable, cas Case) string {
 }
 
 func partSeq(c *fw.Ctx, rt *routeTable) {
-	maxLen := 2
+	maxLen := 3
 	if c.Thorough() {
-		maxLen = 3
+		maxLen = 4
 	}
 	c.Bound("seq_max_len", maxLen)
 	c.Bound("seq_alphabet", seqOps)
@@ -657,21 +716,7 @@ func replay(c *fw.Ctx, raw json.RawMessage) {
 	case "route":
 		judgeRoute(c, rt, k.Route)
 	case "authn":
-		if _, ok := rt.find(k.Route); !ok {
-			c.HarnessError("route %q is not in the enumerated route set of %s", k.Route, rt.File)
-			return
-		}
-		e, err := newEnv(k.cfg(), rt)
-		if err != nil {
-			c.HarnessError("%v", err)
-			return
-		}
-		other, err := newEnv(k.cfg(), rt)
-		if err != nil {
-			c.HarnessError("%v", err)
-			return
-		}
-		fmt.Println("outcome:", judgeAuthn(c, e, other, k))
+		fmt.Println("outcome:", judgeAuthn(c, rt, k))
 	case "login":
 		fmt.Println("outcome:", judgeLogin(c, rt, k))
 	case "seq":
